@@ -9,6 +9,7 @@ import (
 	"encoding/json"
 	"fmt"
 	"os"
+	"runtime/debug"
 	"sort"
 	"strings"
 	"sync"
@@ -122,9 +123,76 @@ func Check(t *testing.T, prop, rule string, floors map[string]float64, body func
 	rapid.Check(t, func(rt *rapid.T) {
 		c := &Case{rt: rt, st: st, prop: prop, labels: map[string]struct{}{}}
 		defer c.finish()
-		body(rt, c)
-		c.done = true
+		if c.guard(func() { body(rt, c) }) {
+			c.done = true
+		}
 	})
+}
+
+// guard runs a property body. A panic that ORIGINATES in the code under test (the innermost frame that belongs to either
+// the harness or pocket-core is a pocket-core frame) for a generated - legal - input is a violation of every listed
+// property (each promises a result, not a crash) and is reported as one, with the panicking function in the signature;
+// checks that expect a documented panic recover it themselves and never get here. Panics that originate in harness code
+// and rapid's own control-flow panics are passed on unchanged (the driver maps the former to "inconclusive").
+func (c *Case) guard(body func()) (completed bool) {
+	defer func() {
+		r := recover()
+		if r == nil {
+			return
+		}
+		if strings.HasPrefix(fmt.Sprintf("%T", r), "rapid.") || strings.HasPrefix(fmt.Sprintf("%T", r), "*rapid.") {
+			panic(r)
+		}
+		stack := string(debug.Stack())
+		fn, inCUT := panicOrigin(stack)
+		if !inCUT {
+			panic(fmt.Sprintf("%v\n[stack at the original panic]\n%s", r, stack))
+		}
+		completed = false
+		c.Violation(c.prop+"/panic-in-code-under-test/"+fn, "the code under test panicked on a generated input: %v (in %s); case so far: %s", r, fn, strings.Join(lastN(c.ops, 6), " ; "))
+	}()
+	body()
+	return true
+}
+
+func lastN(s []string, n int) []string {
+	if len(s) > n {
+		return s[len(s)-n:]
+	}
+	return s
+}
+
+const cutPrefix = "github.com/pokt-network/pocket-core/"
+
+// panicOrigin finds, in a debug.Stack() taken while panicking, the innermost frame below the panic call that belongs to
+// pocket-core or to the harness, and says which of the two it is.
+func panicOrigin(stack string) (fn string, inCUT bool) {
+	lines := strings.Split(stack, "\n")
+	start := -1
+	for i, l := range lines {
+		if strings.HasPrefix(l, "panic(") {
+			start = i // the last panic( line is the original one when a deferred function re-panicked
+		}
+	}
+	if start < 0 {
+		return "", false
+	}
+	for _, l := range lines[start+1:] {
+		if strings.HasPrefix(l, "\t") || l == "" {
+			continue
+		}
+		name := l
+		if i := strings.LastIndex(name, "("); i > 0 {
+			name = name[:i]
+		}
+		switch {
+		case strings.HasPrefix(name, cutPrefix):
+			return strings.TrimPrefix(name, cutPrefix), true
+		case strings.HasPrefix(name, "verif/"):
+			return name, false
+		}
+	}
+	return "", false
 }
 
 // Enumerate runs an exhaustive (non-random) enumeration: body calls each(name, f) for every point of the
@@ -138,8 +206,9 @@ func Enumerate(t *testing.T, prop, rule string, body func(each func(name string,
 		c := &Case{st: st, prop: prop, labels: map[string]struct{}{}, tb: t}
 		c.Opf("%s", name)
 		defer c.finish()
-		f(c)
-		c.done = true
+		if c.guard(func() { f(c) }) {
+			c.done = true
+		}
 	})
 }
 
